@@ -248,6 +248,11 @@ func (e *Engine) index() {
 						e.tc.ctorFor(i.X.Type())
 						e.ctorTypes[types.TypeString(i.X.Type(), nil)] = i.X.Type()
 					}
+				case *ssa.ChangeInterface:
+					if e.tc.sortOf(i.Type()).Kind == KAny && e.tc.sortOf(i.X.Type()) == SErr {
+						e.tc.ctorFor(i.X.Type())
+						e.ctorTypes[types.TypeString(i.X.Type(), nil)] = i.X.Type()
+					}
 				case *ssa.TypeAssert:
 					if _, isIface := i.AssertedType.Underlying().(*types.Interface); !isIface {
 						e.tc.ctorFor(i.AssertedType)
